@@ -129,12 +129,39 @@ def step(ctx, rng, t, m, log):
     op = rng.choice(ops)
     before_plain = m.plain
     style_only = False
-    if op == "append_str":
+    if op == "append_str" and rng.random() < 0.1:
+        # a run of equal characters (a later split at two of them meets a separator that overlaps itself)
+        s = rng.choice(["a", " ", "x", "-"]) * rng.choice([3, 4, 5])
+        log.append([op, s, None])
+        t.append(s)
+        m.append_str(s, None)
+    elif op == "append_str":
         s = rand_text(rng, 6, controls=0.25)
         rec = rand_style(rng) if rng.random() < 0.6 else None
         log.append([op, s, G.definition(rec) if rec else None])
         t.append(s, real_style(rng, rec) if rec else None)
         m.append_str(s, rec)
+    elif op in ("append_text", "append_text_method", "add") and rng.random() < 0.08:
+        # the text appended to itself ("double it"): the copy carries the styles the original had at that moment
+        log.append([op, "SELF"])
+        m2 = m.copy()
+        import signal
+
+        def _hang(signum, frame):
+            raise TimeoutError("appending a Text to itself did not return within 5 s")
+        old_handler = signal.signal(signal.SIGALRM, _hang)
+        signal.setitimer(signal.ITIMER_REAL, 5)
+        try:
+            if op == "append_text":
+                t.append(t)
+            elif op == "append_text_method":
+                t.append_text(t)
+            else:
+                t = t + t
+        finally:
+            signal.setitimer(signal.ITIMER_REAL, 0)
+            signal.signal(signal.SIGALRM, old_handler)
+        m.append_tm(m2)
     elif op in ("append_text", "append_text_method", "add"):
         t2, m2 = build_pair(rng, 6)
         log.append([op, m2.plain, repr(t2.spans), str(t2.style)])
@@ -148,14 +175,14 @@ def step(ctx, rng, t, m, log):
     elif op == "append_tokens":
         toks, mtoks = [], []
         for _ in range(rng.randint(0, 3)):
-            s = rand_text(rng, 5)
+            s = rand_text(rng, 5, controls=0.2)
             rec = rand_style(rng) if rng.random() < 0.6 else None
             toks.append((s, real_style(rng, rec) if rec else None))
             mtoks.append((s, rec))
         log.append([op, [(s, G.definition(r) if r else None) for s, r in mtoks]])
         t.append_tokens(_as_iterable(rng, toks, log))
         for s, rec in mtoks:
-            m.append_str(s, rec, strip=False)
+            m.append_str(s, rec)        # (control codes Text strips are stripped from tokens too)
     elif op == "assemble":
         parts, mparts = [], []
         base = rand_style(rng) if rng.random() < 0.4 else None
@@ -178,9 +205,20 @@ def step(ctx, rng, t, m, log):
                 t2, m2 = build_pair(rng, 5)
                 parts.append(t2)
                 newm.append_tm(m2)
-        log.append([op, len(parts), G.definition(base) if base else None])
-        t = Text.assemble(*parts, style=real_style(rng, base))
-        m = newm
+        own_tab = rng.choice([None, None, 2, 3, 4, 16])
+        log.append([op, len(parts), G.definition(base) if base else None, {"tab_size": own_tab}])
+        if own_tab is None:
+            t = Text.assemble(*parts, style=real_style(rng, base))
+            m = newm
+        else:
+            # the assembled text is given a tab size of its own and expands its tabs with it (no argument)
+            t = Text.assemble(*parts, style=real_style(rng, base), tab_size=own_tab)
+            m = newm
+            if t.tab_size != own_tab:
+                ctx.violation("assemble-ignores-an-option:tab_size", {"log": log, "got": t.tab_size, "want": own_tab})
+            t.expand_tabs()
+            m.expand_tabs(own_tab)
+            t.tab_size = 8
     elif op == "join":
         sep_t, sep_m = build_pair(rng, rng.choice([0, 1, 2]))
         others = [build_pair(rng, 5) for _ in range(rng.randint(0, 2))]
@@ -198,6 +236,10 @@ def step(ctx, rng, t, m, log):
         sep = rng.choice(["\n", "\n", " ", ",", "ab", "\t", "  "])
         if rng.random() < 0.3 and n:
             sep = m.plain[rng.randrange(n)]
+        runs = [c for c in ("a", " ", "x", "-") if c * 3 in m.plain]
+        if runs and rng.random() < 0.6:
+            # a separator that overlaps itself in the text: a run of >= 3 equal characters split at two of them
+            sep = rng.choice(runs) * 2
         incl = rng.random() < 0.4
         blank = rng.random() < 0.4
         log.append([op, sep, incl, blank])
@@ -288,10 +330,10 @@ def step(ctx, rng, t, m, log):
         t.truncate(width, overflow=overflow, pad=pad)
         m.truncate(width, overflow, pad)
     elif op == "right_crop":
-        amount = rng.choice([0, 1, 1, 2, n, n + 1, n + 3, rng.randint(0, n + 1)])
+        amount = rng.choice([0, 1, 1, 2, n, n + 1, n + 3, rng.randint(0, n + 1), -1, -n - 2])
         log.append([op, amount])
         t.right_crop(amount)
-        m.crop_to(max(0, n - amount))
+        m.crop_to(min(n, max(0, n - amount)))      # (a negative amount removes nothing)
     elif op == "set_length":
         new = rng.choice([0, n, n + 1, n + 4, max(0, n - 1), rng.randint(0, n + 3)])
         log.append([op, new])
@@ -327,19 +369,28 @@ def step(ctx, rng, t, m, log):
         if suffix and m.plain.endswith(suffix):
             m.crop_to(n - len(suffix))
     elif op == "copy":
-        log.append([op])
-        t = t.copy()
+        how = rng.choice(["Text.copy", "Text.copy", "copy.deepcopy", "pickle"])
+        log.append([op, how])
+        if how == "Text.copy":
+            t = t.copy()
+        elif how == "copy.deepcopy":
+            import copy as _copy
+            t = _copy.deepcopy(t)
+        else:
+            import pickle as _pickle
+            t = _pickle.loads(_pickle.dumps(t))
         m = m.copy()
     elif op == "plain_set":
         # assigning a shorter / longer plain string: spans are trimmed, characters replaced
         k = rng.randint(0, n + 2)
-        new = (m.plain + "xyz")[:k]
+        tail = "xyz" if rng.random() < 0.8 else "x" + rng.choice(M.STRIP) + "z"
+        new = (m.plain + tail)[:k]
         log.append([op, new])
         t.plain = new
         if k <= n:
             m.crop_to(k)
         else:
-            m.chars.extend((c, None) for c in new[n:])
+            m.chars.extend((c, None) for c in new[n:] if c not in M.STRIP)     # (stripped like everywhere else)
     elif op == "stylize":
         rec = rand_style(rng)
         a = rng.choice([0, rng.randint(-n - 2, n + 2)])
